@@ -109,6 +109,7 @@ fn main() {
                 "c03_inl" => ("C03", c01::part_c03_inlined(tier)),
                 "c19_regs" => ("C19", c19r::part_registers(tier, "C19")),
                 "c04_c" => ("C04", c04::part_c_binary(tier)),
+                "c05_sig" => ("C05", c05c::part_signal_frames(tier)),
                 "c05_c" => ("C05", c05c::part_c_frames(tier)),
                 "c05_opt" => ("C05", c19r::part_registers(tier, "C05")),
                 "c17_objects" => ("C17", c18s::part_names_across_objects(tier)),
@@ -190,6 +191,7 @@ fn run_check(id: &str, tier: Tier) -> i32 {
             r.parts.push(mt::part_c05_threads(tier));
             r.parts.push(c19r::part_registers(tier, "C05"));
             r.parts.push(c05c::part_c_frames(tier));
+            r.parts.push(c05c::part_signal_frames(tier));
             finish(r)
         }
         "C04" => {
